@@ -13,6 +13,7 @@ use std::sync::Arc;
 
 use crate::root_compilation_scope::Interner;
 
+use crate::util::lazy_bigint::LazyBigint;
 use crate::util::str_escapes::{apply_brace_escape, apply_escapes};
 use crate::xexpr::{OverloadSpecialization, XExpr};
 use crate::xtype::{CompoundKind, XFuncParamSpec};
@@ -653,12 +654,35 @@ impl<W, R, T> CompilationScope<'_, W, R, T> {
                             .and_then(|s| i128::from_str_radix(s, 2).ok())
                     })
                 {
-                    return Ok(XStaticExpr::LiteralInt(whole));
+                    return Ok(XStaticExpr::LiteralInt(LazyBigint::from(whole)));
                 }
-                if let Ok(float) = to_parse.parse::<f64>() {
-                    return Ok(XStaticExpr::LiteralFloat(float));
+                // integer spellings beyond 128 bits are still exact integers
+                let big = if let Some(hex) = to_parse.strip_prefix("0x") {
+                    Some(LazyBigint::from_str_radix(hex, 16))
+                } else if let Some(bin) = to_parse.strip_prefix("0b") {
+                    Some(LazyBigint::from_str_radix(bin, 2))
+                } else if to_parse.bytes().all(|b| b.is_ascii_digit()) {
+                    Some(LazyBigint::from_str_radix(&to_parse, 10))
+                } else {
+                    None
+                };
+                match big {
+                    Some(Ok(whole)) => return Ok(XStaticExpr::LiteralInt(whole)),
+                    Some(Err(_)) => {
+                        return Err(CompilationError::InvalidNumberLiteral {
+                            literal: input.as_str().to_string(),
+                        }
+                        .trace(&input))
+                    }
+                    None => {}
                 }
-                panic!("{} is not a number", input.as_str());
+                match to_parse.parse::<f64>() {
+                    Ok(float) if float.is_finite() => Ok(XStaticExpr::LiteralFloat(float)),
+                    _ => Err(CompilationError::InvalidNumberLiteral {
+                        literal: input.as_str().to_string(),
+                    }
+                    .trace(&input)),
+                }
             }
             Rule::CNAME => {
                 return Ok(XStaticExpr::Ident(interner.get_or_intern(input.as_str())));
